@@ -46,7 +46,7 @@ Preds == {"C17.QuatRotate", "C17.QuatLength", "C17.QuatCompose", "C17.QuatAxisAn
           "C17.MatAdd", "C17.MatMul", "C17.MatDet", "C17.MatInverse", "C17.MatMulPosition",
           "C17.TRSTransform", "C17.TRSTransformArray", "C17.TRSTransformInPlace", "C17.MeshTransform",
           "C17.BoxNew", "C17.BoxEncapsulate", "C17.BoxTight", "C17.BoxContains", "C17.BoxClosest",
-          "C17.QuatLengthReal", "C17.QuatComposeReal", "C17.QuatAxisFixed", "C17.RotationToReal",
+          "C17.QuatLengthReal", "C17.QuatComposeReal", "C17.QuatAxisFixed", "C17.RotationToReal", "C17.RotationToNear",
           "C17.MatInverseReal", "C17.MatMulAssoc", "C17.MatDetMul", "C17.MatAddReal",
           "C17.TRSReal", "C17.MeshReal", "C17.BoxReal", "Harness.Shape"}
 
